@@ -5,13 +5,13 @@ _NOTE = ("Trusted: CPython, z3 5.1, CrossHair's models of str/int/list, the harn
 _P = ("solver-driven exhaustive enumeration of a bounded input space by the symx engine (z3 chooses and blocks each value combination; "
       "the unmodified Rich code runs on it and is compared with an independent reference)")
 CLAIMED["C01"] = ("symbolic execution (symx, z3 Int + exact rationals) of Table._calculate_column_widths/_collapse_widths/ratio_reduce/ratio_distribute with symbolic cell measurements and budget; " + _P + " for rendered trees",
- "Column-width solver: for all cell measurements <=40 and budgets <=60 (2 and 3 columns, 9 option sets) the widths never exceed the budget. Rendered catalogue of 55 trees: every width from the structural minimum to 60 (thorough 200).",
+ "Column-width solver: for all cell measurements <=200 and budgets <=240 (2 and 3 columns, 9 option sets; thorough also <=1500/2000) the widths never exceed the budget. Rendered catalogue of 57 trees: every width from the structural minimum to 60 (thorough 200).",
  _NOTE, "DESIGN.md 5 C01")
 CLAIMED["C02"] = (_P + " over word triples x separators x span grids x widths x justify x overflow x no_wrap, Text.wrap run natively",
- "Bounded exhaustive check of Text.wrap: characters kept in order under fold, lines fit, per-character ordered span styles, words split only when too wide.",
+ "divide_line decided for ALL strings up to length 4 (thorough 6) over a mixed-width alphabet (CrossHair, symbolic); Text.wrap exhaustively over word triples x separators x span grids (incl. identical-valued spans) x widths x 5 justify x 4 overflow x no_wrap.",
  _NOTE, "DESIGN.md 5 C02")
 CLAIMED["C03"] = (_P + "; emitted stream decoded by an independent SGR/OSC-8 terminal model",
- "For every colour system and console flag combination, styles with up to one (thorough: two) attributes, 8 colour kinds for fg/bg and a link: the bytes written decode to the segments' characters, attributes, down-converted colours and link, with no leak.",
+ "For every colour system and console flag combination, styles with up to one (thorough: two) attributes, 8 colour kinds for fg/bg and a link: the bytes written decode to the segments' characters, attributes, down-converted colours and link, with no leak; the SGR attribute list for ALL 2^13 x 2^13 mask pairs symbolically (thorough); reuse of one Style object across colour / NO_COLOR consoles.",
  _NOTE, "DESIGN.md 5 C03")
 CLAIMED["C04"] = ("CrossHair symbolic execution of markup.render/escape (regex tokenizer on symbolic strings) against a hand-written scanner; " + _P + " for token documents",
  "escape round trip and scanner-model agreement for ALL strings up to length 5/4 over the syntax alphabet (symbolic); precedence of later-opened tags over every document of up to 5 (thorough 6) tokens.",
@@ -32,7 +32,7 @@ CLAIMED["C09"] = ("symbolic execution (symx) of Measurement.get/normalize/clamp 
  "0<=min<=max<=width for ANY raw measurement and width<=60; Text minimum/maximum equal widest word/line for all strings up to length 3 (thorough 5); rendering each catalogue tree at its reported min/max never overflows.",
  _NOTE, "DESIGN.md 5 C09")
 CLAIMED["C10"] = (_P + ": single-threaded Live histories replayed on a VT100-subset screen model; exception injection at every render index / block position",
- "Reduced claim: every Live history of 2 (thorough 3) operations + stop on a 20x6 terminal leaves exactly the printed lines and the current frame; crash points restore cursor, redirection and hooks. No threads, no histories beyond 3 steps.",
+ "Reduced claim: every Live history of 2 (thorough 3) and every Progress history of 3 (thorough 4) operations + stop on a small terminal leaves exactly the printed lines and the current frame; an exception at every render index / block position restores cursor, redirection and hooks and leaves printed lines intact. No threads, no longer histories.",
  _NOTE + " Thread-related clauses are not applicable (see C11).", "DESIGN.md 5 C10")
 CLAIMED["C12"] = ("symbolic execution (symx, z3 Int + exact rationals, symbolic clock) of the real Progress/Task methods over solver-enumerated operation sequences",
  "Sequential histories only: every 2 (thorough 3) operation history over two tasks with symbolic amounts, totals and clock steps satisfies the accounting, percentage, finished/finish-time, speed and time-remaining clauses; track() for lengths 0..4.",
@@ -44,10 +44,10 @@ CLAIMED["C14"] = ("CrossHair symbolic execution of Color.parse / markup.render /
  "Only documented exceptions for all template fillers up to the stated lengths; no exception from rendering/measuring/printing any catalogue tree at any width 1..40 (thorough 200).",
  _NOTE, "DESIGN.md 5 C14")
 CLAIMED["C15"] = (_P + " over segment lists and API histories on a recording console; exports compared via the independent terminal model",
- "All 2 (thorough 3) segment lists / operation histories: export_text, export_html (both modes), styled export and capture agree with the file's visible text; clear semantics.",
+ "All 2 (thorough 3) segment lists / operation histories x colour system x terminal x NO_COLOR: export_text, export_html (both modes), styled export and capture agree with the file's visible text (incl. entity-shaped text, control segments); clear semantics.",
  _NOTE, "DESIGN.md 5 C15")
 CLAIMED["C16"] = (_P + " over a value catalogue x max_width x indent x expand_all x max_length x max_string",
- "For 61 catalogue values: eval round trip, repr equality when it fits, token order at every width, layout rules, exact abbreviation counts, cycle markers, for every width 1..40 and option value in the bounds.",
+ "For 74 catalogue values: eval round trip, repr equality when it fits, token order, layout rules with max_width SYMBOLIC over 1..1,000,000 (each path = one layout for a whole interval of widths); exact abbreviation counts, shared-object and cycle handling, for every option value in the bounds.",
  _NOTE, "DESIGN.md 5 C16")
 CLAIMED["C18"] = ("symbolic execution of Color.downgrade / Palette.match / get_ansi_codes with z3 (Float64 semantics for truecolor->256, BitVec for the weighted metric)",
  "For all 2^24 colours: conversion to 16-colour palettes is in gamut, idempotent, order-independent and minimal under the documented metric; all 256 indexed colours; SGR parameters for every colour kind. Truecolor->256 with exact IEEE semantics: greys (quick), all 2^24 colours (thorough).",
